@@ -547,3 +547,34 @@ M('C04', 'python split worker leaves flag', NPC, """    res._qdata = new_qdata
     res._qdata_sorted = False
     res._data = new_data""", """    res._qdata = new_qdata
     res._data = new_data""", 'PAIR-effects')
+
+# ---------------------------------------------------------------- C16 / C19
+M('C16', 'rebuild forgets second-last vector', KRY,
+  """            elif k > 0:
+                self.iadd_prefactor_other(w, -beta, self._cache[-2])  # noqa: F821
+            beta = h[k, k + 1]  # = norm(w)""", """            beta = h[k, k + 1]  # = norm(w)""",
+  'KRYLOV-recurrence')
+M('C16', 'rebuild reads beta from wrong element', KRY, '            beta = h[k, k + 1]  # = norm(w)',
+  '            beta = h[k + 1, k + 1]  # = norm(w)', 'KRYLOV-coefficients')
+M('C16', 'shift adjoint not conjugated', SPARSE,
+  'return ShiftNpcLinearOperator(self.orig_operator.adjoint(), np.conj(self.shift))',
+  'return ShiftNpcLinearOperator(self.orig_operator.adjoint(), self.shift)', 'WRAP-adjoint')
+M('C16', 'E_shift not removed from the energy', KRY, """        if self.E_shift is not None:
+            E0 -= self.E_shift
+        if N == 1:
+            return E0, self.psi0.copy(), N""", """        if N == 1:
+            return E0, self.psi0.copy(), N""", 'KRYLOV-eshift')
+M('C16', 'orthogonal operator projects only once', SPARSE,
+  "        for o in self.ortho_vecs[::-1]:  # reverse: more obviously Hermitian.\n",
+  "        for o in []:\n", 'WRAP-orthogonal')
+M('C19', 'square next-nearest neighbours wrong', 'tenpy/models/lattice.py',
+  'nNN = [(0, 0, np.array([1, 1])), (0, 0, np.array([1, -1]))]\n        nnNN = [(0, 0, np.array([2, 0]))',
+  'nNN = [(0, 0, np.array([1, 1])), (0, 0, np.array([-1, -1]))]\n        nnNN = [(0, 0, np.array([2, 0]))',
+  'GEOM-neighbors')
+M('C19', 'honeycomb NN typo', 'tenpy/models/lattice.py',
+  'NN = [(0, 1, np.array([0, 0])), (1, 0, np.array([1, 0])), (1, 0, np.array([0, 1]))]',
+  'NN = [(0, 1, np.array([0, 0])), (1, 0, np.array([1, 0])), (1, 0, np.array([1, 1]))]',
+  'GEOM-neighbors')
+M('C19', 'triangular basis changed', 'tenpy/models/lattice.py',
+  'basis = np.array([[sqrt3_half, 0.5], [0.0, 1.0]])', 'basis = np.array([[sqrt3_half, -0.5], [0.0, 1.0]])',
+  'GEOM-neighbors')
